@@ -65,7 +65,7 @@ class Explorer(object):
         if self.runs > self.max_runs:
             raise Skip("run budget exhausted")
         res = self.run(script)
-        if res.status in ("unsupported", "mismatch"):
+        if res.status in ("unsupported", "mismatch", "bypassed", "runaway"):
             raise Skip("%s: %r" % (res.status, res.exc))
         return res
 
